@@ -145,8 +145,6 @@ AlertTripKeys(e) ==
 (* ------------------------------------------------------------------ *)
 EmptyState == [tb |-> <<>>, vb |-> <<>>, t2v |-> <<>>, v2t |-> <<>>, nv |-> <<>>, t2nv |-> <<>>, alerts |-> <<>>]
 
-Put(f, k, v) == [x \in DOMAIN f \cup {k} |-> IF x = k THEN v ELSE f[x]]
-
 MergeTrip(tb, t) == IF t.key \in DOMAIN tb /\ ~t.inMsg THEN tb ELSE Put(tb, t.key, t)
 MergeVeh(vb, v) == IF Val(v.id) \in DOMAIN vb /\ ~v.inMsg THEN vb ELSE Put(vb, Val(v.id), v)
 
